@@ -233,6 +233,7 @@ pub fn evaluate(cfg: &Cfg, out: &RunOut, truth: Option<&Truth>, stable_path: boo
         (r, Some(k)) if r.starts_with("err:") => {
             if &r[4..] != k { fail("C09", format!("fatal {k} surfaced as {r}")); }
             if let Some(s) = &out.snapshot { if s.error().is_none() { fail("C09", "fatal error not visible in the snapshot".to_string()); } }
+            if let Some(None) = &out.error_after_clear { fail("C09", "error of the ended run no longer visible in snapshots after clear()".to_string()); }
         }
         ("err:cap", None) => {
             // capacity error: only legitimate for TCP when a round used all 512 sequences
